@@ -87,6 +87,27 @@ pub fn watch(label: &str) {
 pub fn watch_clear() {
     *CURRENT.lock().unwrap() = None;
 }
+/// how long the call in progress may take before the watchdog calls it a hang (seconds): 20 for one call into the
+/// library; the live phases (several services over loopback multicast, each with its own time-outs and its own
+/// verdict on a service that stops answering) announce themselves with a budget of minutes
+pub static BUDGET_SECS: std::sync::atomic::AtomicU64 = std::sync::atomic::AtomicU64::new(20);
+/// live phases running now (they may overlap with each other and with watched calls on other threads)
+pub static LIVE_PHASES: std::sync::atomic::AtomicU64 = std::sync::atomic::AtomicU64::new(0);
+pub struct LivePhase;
+pub fn live_phase() -> LivePhase {
+    LIVE_PHASES.fetch_add(1, std::sync::atomic::Ordering::SeqCst);
+    BUDGET_SECS.store(600, std::sync::atomic::Ordering::SeqCst);
+    LivePhase
+}
+impl Drop for LivePhase {
+    fn drop(&mut self) {
+        if LIVE_PHASES.fetch_sub(1, std::sync::atomic::Ordering::SeqCst) == 1 {
+            BUDGET_SECS.store(20, std::sync::atomic::Ordering::SeqCst);
+            // the call announced before the live phase began has long returned: its clock starts again
+            if let Some(cur) = CURRENT.lock().unwrap().as_mut() { cur.1 = std::time::Instant::now(); }
+        }
+    }
+}
 
 /// run `f`, mapping a panic to the string "panic"
 pub fn guard<F: FnOnce() -> String + std::panic::UnwindSafe>(f: F) -> String {
